@@ -86,6 +86,8 @@ class KeysPredicate(Unit):
             yield from self._truth_table(str(ex))
             return
         self._P = P
+        probe = enummod().Enum({"_single": 6, "plain": 5})
+        yield "C18", "names-with-one-leading-underscore-are-user-entries", list(probe.keys) == ["_single", "plain"] and probe[6] == "_single"
         yield "C18", "every-user-entry-is-listed (name without leading __, value neither callable nor bound method)", V.SBool(z3.Implies(z3.And(z3.Not(c), z3.Not(d), z3.Not(m)), P))
         yield "C18", "names-added-by-class-creation-are-not-listed (__module__, __dict__, __weakref__, __doc__)", V.SBool(z3.Implies(z3.And(d, z3.Not(m), z3.Not(c)), z3.Not(P)))
         yield "C18", "callable-non-method-values-are-not-listed", V.SBool(z3.Implies(z3.And(c, z3.Not(m)), z3.Not(P)))
@@ -99,14 +101,14 @@ class KeysPredicate(Unit):
 
         bound = _Obj().meth
         samples = {  # (callable, dunder name, bound method) -> (name, value)
-            (False, False, False): ("plain", 5), (False, True, False): ("__dunder_plain", 5),
+            (False, False, False): ("plain", 5), (False, True, False): ("__dunder_plain", 5), "single-underscore": ("_single", 6),
             (True, False, False): ("fn", len), (True, True, False): ("__dunder_fn", len),
             (True, False, True): ("bm", bound), (True, True, True): ("__dunder_bm", bound),
         }
         e = E({name: val for name, val in samples.values()})
         listed = set(e.keys)
         note = " [filter structure not recognised (%s): decided on the truth table of the real filter]" % why[:60]
-        yield "C18", "every-user-entry-is-listed (name without leading __, value neither callable nor bound method)" + note, "plain" in listed
+        yield "C18", "every-user-entry-is-listed (name without leading __, value neither callable nor bound method)" + note, "plain" in listed and "_single" in listed
         yield "C18", "names-added-by-class-creation-are-not-listed (__module__, __dict__, __weakref__, __doc__)" + note, not any(k.startswith("__") and not callable(getattr(e, k, None)) for k in listed) and "__dunder_plain" not in listed
         yield "C18", "callable-non-method-values-are-not-listed" + note, "fn" not in listed and "__dunder_fn" not in listed
 
@@ -257,7 +259,7 @@ class ValueKinds(Unit):
 
         op = OpCode("X", 1, {"SA": 2})
         nested = {"k": {"n": 1}}
-        items = [("s", "text"), ("d", {"p": 1}), ("n", nested), ("o", op), ("none", None), ("dup1", 5), ("dup2", 5)]
+        items = [("s", "text"), ("d", {"p": 1}), ("n", nested), ("o", op), ("none", None), ("dup1", 5), ("dup2", 5), ("_VENDOR_C0", 0xC0), ("x_", 7)]
         e = E(dict(items))
         k = E(**dict(items))
         res = []
